@@ -3,6 +3,10 @@ from runners.common import replay_with, standard_flow
 TRUSTED = [
     "hand-written vocabulary of coq/props/C19_lemmas.v (is_event, interior, pmom/psub, tsign/zsign sign "
     "conventions, expected error sets) and coq/theories/Dpd.v (gram/cosf/cos3, tree reader acos_parts/poly_ok)",
+    "routes B/C of the harness (substitute particle masses / a whole event into the UNEVALUATED expression, then "
+    "doit(), SymPy evalf(50)) cover structural-equality branches of Kallen.evaluate that symbolic regeneration with "
+    "distinct symbols cannot reach; in Coq these are covered for Kallen(x,y,y) etc. and for 72 equal-symbol "
+    "substitutions only (not for arbitrary numeric substitutions)",
     "the generated expressions are taken after .doit() (unfolds the Kallen nodes with the current "
     "Kallen.evaluate); the un-unfolded tree cannot be lambdified",
     "bridge/search_C19.py: independent four-momentum evaluator (explicit boosts, atan2 angles, 80-digit mpmath) "
@@ -21,12 +25,12 @@ def run(chk):
         "rest-frame reading proved separately (C19_cosf_is_rest_frame_cosine / _lorentz_invariant); the "
         "explicit BoostMatrix route is exercised numerically by the harness and proved in C08",
     ]
-    standard_flow(chk, "symgen_C19.py", ["Gen_C19.v"], ["C19_lemmas.v"], "C19.v",
-                  "search_C19.py", 90, 2500,
+    standard_flow(chk, "symgen_C19.py", ["Gen_C19.v"], ["C19_lemmas.v", "C19_lemmas2.v"], "C19.v",
+                  "search_C19.py", 90, 1500,
                   "exact-rational three-body events in the parent rest frame (interior, 1e-3..1e-12 from the "
                   "collinear boundary, soft corner, one/two/three massless, two/three equal masses, random rational "
                   "rotations and label permutations); every non-raising index tuple of the three builders is "
-                  "evaluated (80-digit and float64) and compared with an independent four-momentum evaluator; plus "
+                  "evaluated along route A (doit, then 80-digit mpmath and float64), route B (particle masses substituted before doit) and route C (whole event substituted before doit) and compared with an independent four-momentum evaluator; plus "
                   "the raise-set over all 16+16+64 tuples and DalitzPlotDecomposition models for 2 corpus reactions "
                   "x 3 reference subsystems; distinct = distinct generated cases",
                   coq_timeout=900, search_timeout=1700)
